@@ -8,5 +8,5 @@ CONSTANTS
   Modes <- ModesAll
   Deviations <- NoDev
   Emit = TRUE
-INVARIANTS TypeOK RoundTrip TamperRejected WrongKey CraftRefused NoIdentity ShareExact ShareNoIdentity ThresholdOpen EmitVec
+INVARIANTS TypeOK RoundTrip TamperRejected WrongKey CraftRefused NoIdentity ShareExact ShareLinear ShareNoIdentity ThresholdOpen EmitVec
 CHECK_DEADLOCK FALSE
